@@ -105,6 +105,67 @@ def alias_wrappers(P, rep, rule="ALIAS.wrapper"):
     rep.floor(rule, n, 2, "alias shifts")
 
 
+def polygon_boundary(P, rep, rule="POLY.boundary"):
+    """the winding-number test treats its boundary the same way on upward and downward edges, and closed"""
+    from . import sib
+    rep.rule(rule, "polygon_contains_point_implementation: on an upward and on a downward edge the `point is on the infinite line` case runs "
+                   "the same on-segment test, and that test is closed: 0 <= (p - V_j).(V_i - V_j) <= |V_i - V_j|^2 returns true (both end "
+                   "points of every edge belong to the polygon); the line test itself is |is_left| < epsilon in both branches")
+    F = P.func("WorldBuilder::Utilities::polygon_contains_point_implementation")
+    R = lambda n: norm.render(P, n, nocast=True).replace(" ", "")
+    online = [x for x in F.walk() if x.get("k") == "IfStmt" and "is_left" in R(x["c"][0]) and "epsilon" in R(x["c"][0])]
+    if len(online) != 2:
+        rep.unknown(rule, "%d `on the line` tests (2 expected: upward and downward edge)" % len(online))
+        return
+    forms = []
+    for x in online:
+        C = sib.Canon(P, F, alias_params=False, alias_locals=False)
+        lines = [C.e(x["c"][0])]
+        C.s(x["c"][1], 0, lines)
+        forms.append(lines)
+    if forms[0] != forms[1]:
+        rem, add = sib.diff_lines(forms[0], forms[1])
+        rep.violation(rule, "the on-segment test of the downward edge differs from that of the upward edge", F.nloc(online[1]), F.qn,
+                      "- " + " | ".join(r.strip() for r in rem[:3]) + "  + " + " | ".join(a.strip() for a in add[:3]),
+                      "boundary points are inside on one kind of edge and outside on the other", key=rule + "|twin",
+                      witness="a vertex of a descending (resp. ascending) chain of the polygon")
+    else:
+        rep.ok(rule, "upward and downward edges share one on-segment test (%d lines)" % len(forms[0]), F.nloc(online[0]), F.qn)
+    for idx, x in enumerate(online):
+        side = ("upward", "downward")[idx]
+        ifs = [y for y in F.walk(x["c"][1]) if y.get("k") == "IfStmt"]
+        rets = [y for y in F.walk(x["c"][1]) if y.get("k") == "ReturnStmt" and y.get("c") and sc(y["c"][0]).get("k") == "CXXBoolLiteralExpr" and sc(y["c"][0]).get("v") is True]
+        decls = {y["r"]: y for y in F.walk(x["c"][1]) if y.get("k") == "VarDecl" and y.get("c")}
+        cmps = []
+        for y in ifs:
+            c = sc(y["c"][0])
+            if c.get("k") == "BinaryOperator" and c.get("op") in ("<", "<=", ">", ">="):
+                l, r = sc(c["c"][0]), sc(c["c"][1])
+                op = c["op"]
+                if op in (">", ">="):      # normalise to l (<|<=) r
+                    l, r, op = r, l, {">": "<", ">=": "<="}[op]
+                cmps.append((l, op, r, y))
+        shape = None
+        if len(ifs) == 2 and len(cmps) == 2 and len(rets) == 1:
+            (l0, op0, r0, _), (l1, op1, r1, _) = cmps
+            zero0 = l0.get("k") in ("IntegerLiteral", "FloatingLiteral") and float(l0.get("v")) == 0.0
+            if zero0 and r0.get("k") == "DeclRefExpr" and l1.get("k") == "DeclRefExpr" and l1.get("r") == r0.get("r") and r1.get("k") == "DeclRefExpr":
+                dot, sq = decls.get(r0["r"]), decls.get(r1["r"])
+                if dot is not None and sq is not None:
+                    dtxt, stxt = R(dot["c"][0]), R(sq["c"][0])
+                    if (dtxt in ("((point-point_list[j])*(point_list[i]-point_list[j]))", "((point_list[i]-point_list[j])*(point-point_list[j]))")
+                            and stxt in ("(point_list[i]-point_list[j]).norm_square()", "((point_list[i]-point_list[j])*(point_list[i]-point_list[j]))")):
+                        shape = (op0, op1)
+        if shape is None:
+            rep.unknown(rule, "%s edge: on-segment test not of the form `0 <= d` then `d <= |e|^2` with d = (p-Vj).(Vi-Vj) at %s" % (side, F.nloc(x)))
+        elif shape == ("<=", "<="):
+            rep.ok(rule, "%s edge: 0 <= (p-Vj).(Vi-Vj) <= |Vi-Vj|^2 -> inside" % side, F.nloc(x), F.qn)
+        else:
+            rep.violation(rule, "%s edge: on-segment test is 0 %s d %s |e|^2 (a strict comparison)" % (side, shape[0], shape[1]),
+                          F.nloc(x), F.qn, "; ".join(R(y["c"][0]) for y in ifs), "an end point of the edge is excluded from the polygon", key="%s|%s|closed" % (rule, side),
+                          witness="query exactly on a vertex of the polygon")
+
+
 def angle_interpolation(P, rep, rule="EXPR.angle"):
     rep.rule(rule, "interpolate_angle_across_zero(a1, a2, f) interpolates along the shorter arc: if |a2-a1| > pi the smaller angle is raised by "
                    "2*pi (a1 when a2 > a1, else a2), the result is (1-f)*a1' + f*a2' reduced to [0, 2*pi)")
